@@ -323,7 +323,7 @@ def run(chk, R, tier, seed):
               "cross-process comparisons", "schedules|S1", "schedules|S2",
               "schedules|S3", "schedules|S4", "schedules|S5"):
         chk.require(c)
-    nw = 100 if tier == "quick" else 4000
+    nw = 160 if tier == "quick" else 4000
     done = 0
     while done < nw:
         m = min(nw - done, 400)
